@@ -230,6 +230,20 @@ def run(ctx):
         g = vpc.guard_for(n_, lambda t: True)
         names = {x.id for x in ast.walk(g[0].ast) if isinstance(x, ast.Name)} if g is not None else set()
         ok = bool(names & loop_aug) or delegated
+        if not ok and g is not None:
+            # the running depth may be kept by a helper predicate the test calls
+            for hc in [x for x in ast.walk(g[0].ast) if isinstance(x, ast.Call)]:
+                for k_, h in cg.resolve_call(hc, pc):
+                    if k_ != "precise":
+                        continue
+                    hp = set(h.params())
+                    for lp in [l_ for l_ in walk_no_nested(h.node) if isinstance(l_, ast.For)
+                               and any(isinstance(x, ast.Name) and x.id in hp for x in ast.walk(l_.iter))]:
+                        ctr = {x.target.id for x in ast.walk(lp) if isinstance(x, ast.AugAssign) and isinstance(x.target, ast.Name)
+                               and isinstance(x.op, (ast.Add, ast.Sub))}
+                        rets = [r for r in walk_no_nested(h.node) if isinstance(r, ast.Return) and r.value is not None]
+                        if ctr and any({x.id for x in ast.walk(r.value) if isinstance(x, ast.Name)} & ctr for r in rets):
+                            ok = True
         ctx.check(ok, "R2.6", pc.qualname, c, loc(pc, c),
                   "PARENTHESES_MISMATCH is decided by comparing the numbers of '(' and ')' only; the parser rejects by nesting depth, so "
                   "`Red),(Blue` (equal counts, a ')' before its '(') parses to an empty tree and validates with no issue at all",
